@@ -362,6 +362,8 @@ def _main(engine_cls, script, holder):
         engine.parent_init()
         agg = run_batch(engine, engine.prop, base_seed, workers=cfg["workers"], budget_s=cfg["budget_s"],
                         max_runs=cfg["max_runs"], per_run_timeout=engine.per_run_timeout)
+        if agg.runs > 0 and agg.counters.get("compared", 0) == 0 and not agg.violations:
+            raise HarnessError("the oracle compared nothing in any run (workload or emitted text not understood by the harness)")
         extra = engine.evidence_extra(agg)
         extra.update(engine.post_batch(agg, base_seed) or {})
     except HarnessError as e:
